@@ -2,373 +2,29 @@
 //!
 //! E2: every short input x every inner-writer script with <= k deviations (a deviation is any
 //! answer other than "accept everything": accept 0/1/2/3 bytes, Interrupted, WouldBlock,
-//! Other), through four drivers: the standard protocol over `write`, `write_vectored` with
-//! every split into <= 3 slices, `write_all`, and `write!` with the input in two fragments.
+//! Other), through the drivers of vchecks::fault_sys: the standard protocol over `write`
+//! (StripStream and AutoStream::never), `write_vectored` with every split into <= 3 slices,
+//! `write_all`, `write!` with the input in two fragments, and `write!` with literal-only
+//! format strings.
 
-use rayon::prelude::*;
 use serde_json::json;
-use std::cell::RefCell;
-use std::io::{self, ErrorKind, IoSlice, Write};
-use std::rc::Rc;
-use std::sync::atomic::{AtomicU64, Ordering};
+use vchecks::fault_sys::*;
 use vexplore::evidence::*;
-use vexplore::scripts::{self, Script};
-use vexplore::util::*;
-use vmodel::strip::StripModel;
-
-const ERR_KINDS: [ErrorKind; 3] = [ErrorKind::Interrupted, ErrorKind::WouldBlock, ErrorKind::Other];
-
-#[derive(Default)]
-struct Shared {
-    script: Script,
-    accepted: Vec<u8>,
-    /// per outer call: what the inner writer answered
-    call_errors: Vec<ErrorKind>,
-    call_short: bool,
-    call_zero: bool,
-    call_writes: usize,
-    flushes: usize,
-}
-
-struct Scripted(Rc<RefCell<Shared>>);
-
-impl Write for Scripted {
-    fn write(&mut self, buf: &[u8]) -> io::Result<usize> {
-        let mut s = self.0.borrow_mut();
-        s.call_writes += 1;
-        // menu: 0 = accept all; then accept k < len for k in 0..=3; then the three error kinds
-        let mut menu: Vec<Result<usize, ErrorKind>> = vec![Ok(buf.len())];
-        for k in 0..=3usize {
-            if k < buf.len() {
-                menu.push(Ok(k));
-            }
-        }
-        for k in ERR_KINDS {
-            menu.push(Err(k));
-        }
-        let c = s.script.choose(menu.len());
-        match menu[c] {
-            Ok(n) => {
-                if n < buf.len() {
-                    s.call_short = true;
-                }
-                if n == 0 && !buf.is_empty() {
-                    s.call_zero = true;
-                }
-                s.accepted.extend_from_slice(&buf[..n]);
-                Ok(n)
-            }
-            Err(k) => {
-                s.call_errors.push(k);
-                Err(io::Error::new(k, "injected"))
-            }
-        }
-    }
-    fn flush(&mut self) -> io::Result<()> {
-        self.0.borrow_mut().flushes += 1;
-        Ok(())
-    }
-}
-
-#[derive(Clone, Copy, Debug, PartialEq, Eq)]
-enum Driver {
-    WriteProtocol,
-    AutoNeverProtocol,
-    Vectored(usize, usize), // cut positions (a <= b) into <= 3 slices
-    WriteAll,
-    WriteFmt(usize), // split point of the two fragments (a char boundary)
-}
-
-fn begin_call(sh: &Rc<RefCell<Shared>>) {
-    let mut s = sh.borrow_mut();
-    s.call_errors.clear();
-    s.call_short = false;
-    s.call_zero = false;
-    s.call_writes = 0;
-}
-
-/// visible text of input[..consumed] must equal what the inner writer accepted so far
-fn check_delivered(input: &[u8], consumed: usize, sh: &Rc<RefCell<Shared>>, what: &str) -> Result<(), String> {
-    let s = sh.borrow();
-    StripModel::default().check_output(&input[..consumed], &s.accepted).map_err(|m| {
-        format!(
-            "{what}: the caller has been told {consumed} of {} bytes are consumed, the inner writer holds {} but the stripped form of the consumed prefix {} differs: {m}",
-            input.len(),
-            show(&s.accepted),
-            show(&input[..consumed])
-        )
-    })
-}
-
-fn run_case(input: &[u8], driver: Driver, script: Script) -> (Result<(), String>, Script) {
-    let sh = Rc::new(RefCell::new(Shared { script, ..Default::default() }));
-    let boxed: Box<dyn Write> = Box::new(Scripted(sh.clone()));
-    let r = (|| -> Result<(), String> {
-        match driver {
-            Driver::WriteProtocol | Driver::AutoNeverProtocol | Driver::Vectored(..) => {
-                enum S {
-                    Strip(anstream::StripStream<Box<dyn Write>>),
-                    Auto(anstream::AutoStream<Box<dyn Write>>),
-                }
-                let mut stream = if driver == Driver::AutoNeverProtocol {
-                    S::Auto(anstream::AutoStream::never(boxed))
-                } else {
-                    S::Strip(anstream::StripStream::new(boxed))
-                };
-                // slices for the vectored driver
-                let cuts = match driver {
-                    Driver::Vectored(a, b) => vec![0, a, b, input.len()],
-                    _ => vec![0, input.len()],
-                };
-                let mut consumed = 0usize;
-                let mut guard = 0;
-                while consumed < input.len() {
-                    guard += 1;
-                    if guard > 64 {
-                        return Err("protocol did not terminate within 64 calls".into());
-                    }
-                    begin_call(&sh);
-                    let offered: usize;
-                    let res = match driver {
-                        Driver::Vectored(..) => {
-                            let slices: Vec<IoSlice<'_>> = cuts
-                                .windows(2)
-                                .filter_map(|w| {
-                                    let (a, b) = (w[0].max(consumed), w[1]);
-                                    (a < b).then(|| IoSlice::new(&input[a..b]))
-                                })
-                                .collect();
-                            offered = input.len() - consumed;
-                            match &mut stream {
-                                S::Strip(s) => s.write_vectored(&slices),
-                                S::Auto(s) => s.write_vectored(&slices),
-                            }
-                        }
-                        _ => {
-                            offered = input.len() - consumed;
-                            match &mut stream {
-                                S::Strip(s) => s.write(&input[consumed..]),
-                                S::Auto(s) => s.write(&input[consumed..]),
-                            }
-                        }
-                    };
-                    let (errs, short, writes) = {
-                        let s = sh.borrow();
-                        (s.call_errors.clone(), s.call_short, s.call_writes)
-                    };
-                    match res {
-                        Ok(n) => {
-                            if n > offered {
-                                return Err(format!("write returned {n}, more than the {offered} bytes it was given"));
-                            }
-                            if !errs.is_empty() && n == offered {
-                                return Err(format!(
-                                    "an inner error ({:?}) was turned into complete success: write returned {n} of {offered}",
-                                    errs[0]
-                                ));
-                            }
-                            consumed += n;
-                            check_delivered(input, consumed, &sh, "after write returned Ok")?;
-                            if n == 0 {
-                                if errs.is_empty() && !short {
-                                    return Err(format!(
-                                        "write made no progress (returned 0 of {offered}) although the inner writer accepted everything ({writes} inner writes)"
-                                    ));
-                                }
-                                return Ok(()); // standard protocol: WriteZero, caller stops
-                            }
-                        }
-                        Err(e) => {
-                            if !errs.contains(&e.kind()) {
-                                return Err(format!("write returned error kind {:?} but the inner writer raised {:?}", e.kind(), errs));
-                            }
-                            // std contract: an error means no byte of this buffer was consumed
-                            check_delivered(input, consumed, &sh, &format!("after write returned Err({:?})", e.kind()))?;
-                            if e.kind() != ErrorKind::Interrupted {
-                                return Ok(()); // fatal for the caller
-                            }
-                        }
-                    }
-                }
-                check_delivered(input, input.len(), &sh, "at the end of the protocol")?;
-                Ok(())
-            }
-            Driver::WriteAll | Driver::WriteFmt(_) => {
-                let mut stream = anstream::StripStream::new(boxed);
-                begin_call(&sh);
-                let res = match driver {
-                    Driver::WriteAll => stream.write_all(input),
-                    Driver::WriteFmt(cut) => {
-                        let a = std::str::from_utf8(&input[..cut]).map_err(|_| "machinery: fragment not UTF-8".to_string())?;
-                        let b = std::str::from_utf8(&input[cut..]).map_err(|_| "machinery: fragment not UTF-8".to_string())?;
-                        write!(stream, "{a}{b}")
-                    }
-                    _ => unreachable!(),
-                };
-                let (errs, zero) = {
-                    let s = sh.borrow();
-                    (s.call_errors.clone(), s.call_zero)
-                };
-                let fatal: Vec<ErrorKind> = errs.iter().copied().filter(|k| *k != ErrorKind::Interrupted).collect();
-                match res {
-                    Ok(()) => {
-                        if !fatal.is_empty() {
-                            return Err(format!("inner error {:?} was turned into success", fatal[0]));
-                        }
-                        check_delivered(input, input.len(), &sh, "after Ok(())")
-                    }
-                    Err(e) => {
-                        let allowed = errs.contains(&e.kind()) || (zero && e.kind() == ErrorKind::WriteZero);
-                        if !allowed {
-                            return Err(format!(
-                                "returned error kind {:?} but the inner writer raised {:?} (accepted zero bytes: {zero})",
-                                e.kind(),
-                                errs
-                            ));
-                        }
-                        // progress on error is unspecified: what was delivered must be the stripped form of some prefix
-                        let ok = (0..=input.len()).any(|p| check_delivered(input, p, &sh, "").is_ok());
-                        if !ok {
-                            return Err(format!(
-                                "after Err({:?}) the inner writer holds {} which is not the stripped form of any prefix of the input",
-                                e.kind(),
-                                show(&sh.borrow().accepted)
-                            ));
-                        }
-                        Ok(())
-                    }
-                }
-            }
-        }
-    })();
-    let script = std::mem::take(&mut sh.borrow_mut().script);
-    (r, script)
-}
-
-const SYMS: [&[u8]; 7] = [b"a", "é".as_bytes(), b"\x1b", b"[", b"1", b"m", b"\n"];
-
-fn drivers_for(tokens: &[usize]) -> Vec<Driver> {
-    let input: Vec<u8> = tokens.iter().flat_map(|&i| SYMS[i].to_vec()).collect();
-    let mut d = vec![Driver::WriteProtocol, Driver::AutoNeverProtocol, Driver::WriteAll];
-    // token boundaries (char boundaries) for fmt fragments and vectored cuts
-    let mut bounds = vec![0];
-    let mut p = 0;
-    for &t in tokens {
-        p += SYMS[t].len();
-        bounds.push(p);
-    }
-    for &c in &bounds {
-        d.push(Driver::WriteFmt(c));
-    }
-    // vectored: every pair of byte positions a <= b (cuts may fall inside "é")
-    for a in 0..=input.len() {
-        for b in a..=input.len() {
-            d.push(Driver::Vectored(a, b));
-        }
-    }
-    d
-}
-
-fn clause_of(m: &str) -> String {
-    for (pat, c) in [
-        ("panic:", "panic"),
-        ("more than the", "count-exceeds-buffer"),
-        ("turned into complete success", "error-turned-into-success"),
-        ("turned into success", "error-turned-into-success"),
-        ("no progress", "no-progress"),
-        ("returned error kind", "error-kind-changed"),
-        ("after write returned Err", "delivered-before-error"),
-        ("not the stripped form of any prefix", "delivered-not-a-prefix"),
-        ("did not terminate", "no-termination"),
-        ("differs", "delivered-differs-from-consumed-prefix"),
-    ] {
-        if m.contains(pat) {
-            return c.to_string();
-        }
-    }
-    "other".into()
-}
 
 fn main_check(ctx: &Ctx) -> Outcome {
     let mut out = Outcome::default();
     let quick = ctx.quick();
     let maxlen = if quick { 5 } else { 6 };
-    let k_of = |len: usize| if quick { 2 } else if len <= 5 { 3 } else { 2 };
-    let inputs: Vec<Vec<usize>> = strings_upto(SYMS.len(), maxlen).filter(|c| !c.is_empty()).collect();
-    let runs = AtomicU64::new(0);
-    let max_points = AtomicU64::new(0);
-    let deviating = AtomicU64::new(0);
-    let viol = std::sync::Mutex::new(Vec::<Finding>::new());
-    let distinct = std::sync::Mutex::new(std::collections::HashSet::<u64>::new());
-    inputs.par_iter().for_each(|toks| {
-        let input: Vec<u8> = toks.iter().flat_map(|&i| SYMS[i].to_vec()).collect();
-        let mut local = std::collections::HashSet::new();
-        for driver in drivers_for(toks) {
-            // vectored splits are many: bound their deviations by 1 less to keep the product in budget
-            let k = k_of(toks.len());
-            let kk = if matches!(driver, Driver::Vectored(..)) && toks.len() > 4 { k - 1 } else { k };
-            let mut found = false;
-            let st = scripts::enumerate(kk, |s| {
-                let r = match guard(|| run_case(&input, driver, s.clone())) {
-                    Ok((r, script)) => {
-                        *s = script;
-                        r
-                    }
-                    Err(p) => {
-                        s.mark_aborted();
-                        Err(p)
-                    }
-                };
-                if s.deviations() > 0 {
-                    deviating.fetch_add(1, Ordering::Relaxed);
-                }
-                local.insert(hash_of(&(s.choices(), r.is_ok())));
-                if let Err(m) = r {
-                    found = true;
-                    let mut v = viol.lock().unwrap();
-                    if v.len() < 400 {
-                        v.push(Finding {
-                            system: format!("StripStream/{}", match driver {
-                                Driver::WriteProtocol => "write-protocol".to_string(),
-                                Driver::AutoNeverProtocol => "AutoStream::never/write-protocol".to_string(),
-                                Driver::Vectored(..) => "write_vectored-protocol".to_string(),
-                                Driver::WriteAll => "write_all".to_string(),
-                                Driver::WriteFmt(_) => "write_fmt".to_string(),
-                            }),
-                            clause: clause_of(&m),
-                            case: vec![hex(&input), format!("{driver:?}"), format!("script{:?}", s.choices())],
-                            message: m,
-                            replay: json!({"kind":"case","input":hex(&input),"driver":format!("{driver:?}"),"script":s.choices()}),
-                        });
-                    }
-                    return false; // first (fewest-deviation) counterexample per (input, driver)
-                }
-                true
-            });
-            let _ = found;
-            runs.fetch_add(st.runs, Ordering::Relaxed);
-            max_points.fetch_max(st.max_points as u64, Ordering::Relaxed);
-        }
-        distinct.lock().unwrap().extend(local);
-    });
-    let mut v = viol.into_inner().unwrap();
-    v.sort_by_key(|f| (f.case[0].len(), f.case[2].len(), f.key()));
-    // keep the shortest few per (system, clause)
-    let mut per: std::collections::HashMap<(String, String), usize> = Default::default();
-    v.retain(|f| {
-        let c = per.entry((f.system.clone(), f.clause.clone())).or_default();
-        *c += 1;
-        *c <= 6
-    });
-    out.findings.extend(v);
-    out.set("evaluations", json!(runs.load(Ordering::Relaxed)));
-    out.set("distinct_nontrivial", json!(deviating.load(Ordering::Relaxed)));
-    out.set("distinct_scripts", json!(distinct.lock().unwrap().len()));
+    let k_of = move |len: usize| if quick { 2 } else if len <= 5 { 3 } else { 2 };
+    let (findings, runs, deviating, max_points) = sweep(Mode::Strip, maxlen, &k_of);
+    out.findings.extend(findings);
+    out.set("evaluations", json!(runs));
+    out.set("distinct_nontrivial", json!(deviating));
     out.set("rule", json!("evaluations = executions (input x driver x script), each distinct by construction; distinct_nontrivial = executions whose script contains at least one deviation (short write or injected error); a script is the list of answers of the inner writer, enumerated CHESS-style with a bound on the number of non-default answers"));
-    out.set("inputs", json!(inputs.len()));
     out.set("max_input_tokens", json!(maxlen));
+    out.set("literal_format_strings", json!(LITERALS));
     out.set("deviation_bound", json!(if quick { "2 (vectored driver on inputs of 5 tokens: 1)" } else { "3 for inputs <= 5 tokens, 2 for 6 tokens (vectored driver on inputs > 4 tokens: one less)" }));
-    out.set("max_decision_points", json!(max_points.load(Ordering::Relaxed)));
+    out.set("max_decision_points", json!(max_points));
     out.set("exhaustive", json!(true));
     out.push_sample(json!({"input":"a ESC[1m b","driver":"WriteProtocol","script":[2,0],"meaning":"first inner write accepts 0 bytes, second accepts all"}));
     out.push_sample(json!({"input":"é a","driver":"Vectored(1,2)","script":[5],"meaning":"slices cut inside é; the only inner write fails with Interrupted"}));
@@ -378,27 +34,8 @@ fn main_check(ctx: &Ctx) -> Outcome {
     out
 }
 
-fn parse_driver(s: &str) -> Driver {
-    let nums: Vec<usize> = s.split(|c: char| !c.is_ascii_digit()).filter(|x| !x.is_empty()).map(|x| x.parse().unwrap()).collect();
-    if s.starts_with("WriteProtocol") {
-        Driver::WriteProtocol
-    } else if s.starts_with("AutoNever") {
-        Driver::AutoNeverProtocol
-    } else if s.starts_with("Vectored") {
-        Driver::Vectored(nums[0], nums[1])
-    } else if s.starts_with("WriteAll") {
-        Driver::WriteAll
-    } else {
-        Driver::WriteFmt(nums[0])
-    }
-}
-
 fn replay(v: &serde_json::Value) -> Result<(), String> {
-    let input = unhex(v["input"].as_str().unwrap());
-    let driver = parse_driver(v["driver"].as_str().unwrap());
-    let forced: Vec<usize> = v["script"].as_array().unwrap().iter().map(|x| x.as_u64().unwrap() as usize).collect();
-    let (r, _) = run_case(&input, driver, Script::new(forced));
-    r
+    replay_case(v)
 }
 
 fn main() {
